@@ -13,7 +13,7 @@ TECHNIQUE = "Hypothesis-generated chains of posterior samples; save/load round t
 RULE = (
     "1..4 chains of 1..13 samples (>=10 forces the '10'<'2' string-order case) of one shipped type, parameters from arbitrary finite float64 up to 1e100 "
     "(denormals, +-0.0, values that change under a float32 cast), empty or full single-effect table, chain files given to evaluate_model in a drawn order; "
-    "refusals: add beyond size, get_theta(-1/len), saving an empty holder. Non-trivial = (>=2 chains and a chain with >=10 samples) or a value that changes "
+    "additionally a collection filled by a live model of that type across two add_observations calls (2 samples before, 2 after; and the concatenation of the two halves) is saved and reloaded; refusals: add beyond size, get_theta(-1/len), saving an empty holder. Non-trivial = (>=2 chains and a chain with >=10 samples) or a value that changes "
     "under float32. distinct = distinct case JSON."
 )
 ASSUMPTIONS = [
@@ -99,6 +99,63 @@ def _same_theta(a, b):
     return None
 
 
+def _predict(t, screen):
+    try:
+        with np.errstate(all="ignore"):
+            return np.asarray(t.predict_viability(screen), dtype=float)
+    except KeyError:
+        return "KeyError"  # a (sample, treatment) of the screen is not in the sample's single-effect table
+
+
+def _model_built(case, screen, paths):
+    """collections filled by a live model of the case's type: samples are taken, the model receives a second batch of
+    observations, further samples are taken into the same collection; the collection as it is at save time must reload
+    sample by sample (parameters, table, predictions); so must the concatenation of a before- and an after-collection"""
+    from batchie.core import ThetaHolder
+    from batchie.data import ExperimentSpace
+
+    if screen.size < 2:
+        return None
+    if case["kind"] == "additive":
+        from batchie.models.sparse_combo import SparseDrugCombo as cls
+    else:
+        from batchie.models.sparse_combo_interaction import SparseDrugComboInteraction as cls
+    seed = case["order_seed"]
+    first = np.arange(screen.size) < (1 + seed % (screen.size - 1))
+    try:
+        model = cls(experiment_space=ExperimentSpace.from_screen(screen), n_embedding_dimensions=len(case["chains"][0][0]["W"][0]))
+        model.set_rng(np.random.default_rng(seed))
+        h = ThetaHolder(n_thetas=4)
+        before, after = ThetaHolder(n_thetas=2), ThetaHolder(n_thetas=2)
+        with np.errstate(all="ignore"):
+            model.add_observations(screen.subset(first))
+            for _ in range(2):
+                model.step()
+                t = model.get_model_state()
+                h.add_theta(t)
+                before.add_theta(t)
+            model.add_observations(screen.subset(~first))
+            for _ in range(2):
+                model.step()
+                t = model.get_model_state()
+                h.add_theta(t)
+                after.add_theta(t)
+    except (KeyError, ValueError, np.linalg.LinAlgError):
+        return "model-refused-screen"  # the model's own domain (e.g. a combination without its single agents); not this property
+    for name, coll in (("model_built", h), ("model_built.concat", ThetaHolder.concat([before, after]))):
+        p = tmp.fresh("built.h5")
+        paths.append(p)
+        coll.save_h5(p)
+        l = ThetaHolder.load_h5(p)
+        require(len(l.thetas) == len(coll.thetas), name + ".count", lambda: "%d samples saved, %d loaded" % (len(coll.thetas), len(l.thetas)))
+        for k, (a, b) in enumerate(zip(coll.thetas, l.thetas)):
+            msg = _same_theta(a, b)
+            require(msg is None, name + ".parameters", lambda: "sample %d of a collection filled across two batches of observations: %s" % (k, msg))
+            pa, pb = _predict(a, screen), _predict(b, screen)
+            require((isinstance(pa, str) and isinstance(pb, str)) or (not isinstance(pa, str) and not isinstance(pb, str) and S.same_bits(pa, pb)), name + ".predictions", lambda: "sample %d predicts %r after reload, %r before" % (k, pb if isinstance(pb, str) else pb.tolist(), pa if isinstance(pa, str) else pa.tolist()))
+    return "model-built-collection"
+
+
 def check_case(case):
     from batchie.core import ThetaHolder
     from batchie.models.main import ModelEvaluation
@@ -171,6 +228,8 @@ def check_case(case):
                     col = np.asarray(t.predict_viability(screen), dtype=float)
                     require(S.same_bits(preds[:, j], col), "evaluate.columns_match_chain_ids", lambda: "prediction column %d is not the prediction of sample %d in chain-major order" % (j, j))
 
+        built = _model_built(case, screen, paths)
+
         # refusals
         h = holders[0]
         full = ThetaHolder(n_thetas=len(h.thetas))
@@ -203,6 +262,8 @@ def check_case(case):
     sizes = [len(c) for c in case["chains"]]
     f32 = any(np.float32(v) != v for ch in case["chains"] for p in ch for v in (p["W"][0][0], p["V2"][0][0]))
     labels = [case["kind"], "chains=%d" % len(sizes)]
+    if built:
+        labels.append(built)
     if max(sizes) >= 10:
         labels.append(">=10-samples")
     if case["cli"]:
